@@ -193,6 +193,25 @@ ACCEPTED_SKIP_WS = {
 }
 
 
+def _accessors_ws_independent(ctx):
+    """the identifier accessors interpreted on Identifier trees with four kinds of whitespace between the parts (the simulation of C12,
+    reported here as R11.12): True when every accessor returns the written parts on all of them"""
+    def build():
+        from . import c12
+        before = len(ctx.obs)
+        saved = ctx.rules.get('R12.9'), ctx.floors.get('R12.9')
+        sim = c12.accessor_simulation(ctx)
+        ctx.rule('R11.12', 'identifier accessors interpreted on Identifier trees: the written name, qualifier and alias whatever whitespace separates the parts (shared with C12)', floor=1)
+        for o in ctx.obs[before:]:
+            if o.rule == 'R12.9':
+                o.rule = 'R11.12'
+        if saved[0] is None:
+            ctx.rules.pop('R12.9', None)
+            ctx.floors.pop('R12.9', None)
+        return sim is not None and all(sim.values())
+    return ctx.shared('c11_accessors_ws_independent', build)
+
+
 def check_skip_ws(ctx):
     repo = ctx.repo
     n = 0
@@ -208,7 +227,11 @@ def check_skip_ws(ctx):
                 sw = kw.get('skip_ws', c.args[1] if len(c.args) > 1 else None)
                 ok = sw is None or (isinstance(sw, ast.Constant) and sw.value is True)
                 key = f'{f.short}:{c.func.attr}({src(c.args[0]) if c.args else ""})'
-                if not ok and (f.name, c.func.attr) in ACCEPTED_SKIP_WS:
+                if not ok and f.qname in ('sqlparse.sql.NameAliasMixin.get_alias', 'sqlparse.sql.TokenList.get_alias', 'sqlparse.sql.TokenList.get_real_name',
+                                          'sqlparse.sql.TokenList.get_parent_name', 'sqlparse.sql.NameAliasMixin.get_real_name') and _accessors_ws_independent(ctx):
+                    ctx.ob('R11.4', key, f'{f.mod.relpath}:{c.lineno}', f'`{src(c)}` looks at the direct neighbour; the accessor results on the interpreted Identifier trees '
+                           'are the same with a blank, a line break, two blanks, a line break and blanks between the parts (R11.12)', True)
+                elif not ok and (f.name, c.func.attr) in ACCEPTED_SKIP_WS:
                     ctx.ob('R11.4', key, f'{f.mod.relpath}:{c.lineno}', 'lookup with skip_ws=False accepted', 'accepted', ACCEPTED_SKIP_WS[(f.name, c.func.attr)])
                 else:
                     ctx.ob('R11.4', key, f'{f.mod.relpath}:{c.lineno}', f'`{src(c)}` skips whitespace between tokens', ok,
